@@ -5,28 +5,30 @@
     every file changed after t; an export of a time range contains exactly the points in
     that range."
 
-    FULL statements that the faithful model REFUTES (and the real code fails, see
-    findings.d/C38.json):
-      (1) forall reachable quiescent s, abs (restore (full backup s)) = abs s
-          — false as soon as a TSM file carries a tombstone that hides a point: Restore
-          skips every archive member that is not a .tsm   [C38_restore_full_backup_refuted]
-      (3) forall files lo hi, the export holds exactly the source points of [lo,hi]
-          — false: whole BLOCKS that overlap the range are kept [C38_export_exact_refuted];
-          and Export fails outright for a shard with a tombstoned file
-          [C38_export_tombstoned_shard_fails] or when a file overlaps the range but none of
-          its blocks does [C38_export_no_values_refuted]. *)
+    The model mirrors the code AFTER the repairs of findings restore-drops-tombstones
+    (Restore installs the archive's .tombstone members), export-tombstoned-file-fails and
+    export-no-block-in-range-fails (Export no longer fails on those shards).
+
+    FULL statement the faithful model still REFUTES (open finding export-block-granularity):
+      forall files lo hi, the export holds exactly the source points of [lo,hi]
+      — false: whole BLOCKS that overlap the range are kept  [C38_export_exact_refuted].
+    Import (asNew) still drops tombstone members (open finding import-drops-tombstones):
+    the export theorems below are about tombstone-free files. *)
 From Verif Require Import Base.Prelude Model.C01 Proofs.C01 Model.C38 Proofs.C38.
 
 (** ** (1) backup + restore *)
 
-(** Partial (the hypothesis the code needs is visible: no tombstone hides a point). *)
-Theorem C38_restore_full_backup_partial : forall s since mts,
-  quiescent s -> Forall tomb_inert (files s) ->
-  length mts = length (files (snapshot_now s)) -> Forall (fun m => (m > since)%Z) mts ->
+(** Full backup (every .tsm and tombstone file newer than [since]; [fresh_entry] also
+    carries the directory/state consistency: a file without a tombstone FILE has no
+    tombstone hiding a point) of a quiescent engine, restored into the empty engine:
+    every read is the same — deletes included. *)
+Theorem C38_restore_full_backup : forall s since mts,
+  quiescent s -> length mts = length (files (snapshot_now s)) ->
+  Forall (fresh_entry since) (with_mtimes mts (files (snapshot_now s))) ->
   forall k t,
-    abs (restore_state (backup_sel since (combine mts (files (snapshot_now s))))) k t = abs s k t.
+    abs (restore_state (backup_sel since (with_mtimes mts (files (snapshot_now s))))) k t = abs s k t.
 Proof. exact restore_full_backup. Qed.
-Print Assumptions C38_restore_full_backup_partial.
+Print Assumptions C38_restore_full_backup.
 
 (** Every history without deletes (writes, snapshots incl. failed ones, compactions), ending
     quiescent: the restored shard reads exactly the last-write-wins content of the history. *)
@@ -34,29 +36,23 @@ Theorem C38_restore_full_backup_no_delete : forall h since mts,
   no_delete h -> quiescent (run h init) ->
   length mts = length (files (snapshot_now (run h init))) -> Forall (fun m => (m > since)%Z) mts ->
   forall k t,
-    abs (restore_state (backup_sel since (combine mts (files (snapshot_now (run h init)))))) k t
+    abs (restore_state (backup_sel since
+           (with_mtimes (map (fun m => (m, None)) mts) (files (snapshot_now (run h init)))))) k t
     = log_get (spec_log h []) k t.
 Proof. exact restore_full_backup_no_delete. Qed.
 Print Assumptions C38_restore_full_backup_no_delete.
 
-(** What the restored shard reads in general: the source's files with every tombstone forgotten. *)
-Theorem C38_restore_forgets_tombstones : forall s since mts,
-  quiescent s -> length mts = length (files (snapshot_now s)) -> Forall (fun m => (m > since)%Z) mts ->
-  forall k t,
-    abs (restore_state (backup_sel since (combine mts (files (snapshot_now s))))) k t
-    = files_get (map strip (files (snapshot_now s))) k t.
-Proof. exact restore_full_backup_char. Qed.
-Print Assumptions C38_restore_forgets_tombstones.
-
-Theorem C38_restore_full_backup_refuted :
-  exists h, let s := run h init in
-    quiescent s /\ exists k t,
-      abs (restore_state (backup_sel 0 (combine [1%Z] (files (snapshot_now s))))) k t <> abs s k t.
+(** The former counter-example (write, snapshot, delete, backup, restore) now keeps the
+    delete; an incremental archive holding a .tsm without its older tombstone file does not. *)
+Example C38_restore_keeps_delete :
+  let s := run c38_witness init in
+  quiescent s /\ abs s 0%N 5%Z = None /\
+  abs (restore_state (backup_sel 0 (with_mtimes [(1%Z, Some 1%Z)] (files (snapshot_now s))))) 0%N 5%Z = None /\
+  abs (restore_state (backup_sel 1 (with_mtimes [(2%Z, Some 1%Z)] (files (snapshot_now s))))) 0%N 5%Z = Some 7%Z.
 Proof.
-  exists c38_witness. destruct restore_resurrects_witness as (Q & A & B).
-  split; [exact Q|]. exists 0%N, 5%Z. rewrite A, B. discriminate.
+  destruct restore_keeps_delete_witness as (Q & A & B).
+  split; [exact Q|]. split; [exact A|]. split; [exact B|exact restore_without_tombstone_member_witness].
 Qed.
-Print Assumptions C38_restore_full_backup_refuted.
 
 (** ** (2) incremental backup: the archive holds a file (.tsm, resp. its tombstone file)
     exactly when its modification time is after [since] — in particular every file
@@ -72,70 +68,56 @@ Theorem C38_incremental_contains_changed_tombstone : forall since fs i,
 Proof. exact backup_members_tombstone. Qed.
 Print Assumptions C38_incremental_contains_changed_tombstone.
 
-(** ** (3) export of a time range *)
+(** ** (3) export of a time range (tombstone-free files) *)
 
 (** Nothing in the range is lost (per file, physical points). *)
-Theorem C38_export_nothing_lost_partial : forall lo hi f ms k t v,
-  export_file lo hi f = Some ms -> In (k, t, v) (bfile_log f) -> (lo <= t <= hi)%Z ->
-  exists m, In m ms /\ In (k, t, v) (bfile_log m).
+Theorem C38_export_nothing_lost_partial : forall lo hi f k t v,
+  In (k, t, v) (bfile_log f) -> (lo <= t <= hi)%Z ->
+  exists m, In m (export_file lo hi f) /\ In (k, t, v) (bfile_log m).
 Proof. exact export_file_nothing_lost. Qed.
 Print Assumptions C38_export_nothing_lost_partial.
 
 (** Every exported block is a source block that overlaps the range. *)
-Theorem C38_export_only_overlapping_blocks_partial : forall lo hi f ms m b,
+Theorem C38_export_only_overlapping_blocks_partial : forall lo hi f m b,
   Forall (fun b => snd b <> []) f ->
-  export_file lo hi f = Some ms -> In m ms -> In b m -> In b f /\ block_keep lo hi b = true.
+  In m (export_file lo hi f) -> In b m -> In b f /\ block_keep lo hi b = true.
 Proof. exact export_file_only_overlapping. Qed.
 Print Assumptions C38_export_only_overlapping_blocks_partial.
 
 (** Exactness when block boundaries align with the range. *)
-Theorem C38_export_exact_when_aligned_partial : forall lo hi f ms,
+Theorem C38_export_exact_when_aligned_partial : forall lo hi f,
   Forall (fun b => snd b <> []) f ->
   Forall (fun b => block_keep lo hi b = true -> (lo <= bmin b /\ bmax b <= hi)%Z) f ->
-  export_file lo hi f = Some ms ->
-  forall m k t v, In m ms -> In (k, t, v) (bfile_log m) -> (lo <= t <= hi)%Z.
+  forall m k t v, In m (export_file lo hi f) -> In (k, t, v) (bfile_log m) -> (lo <= t <= hi)%Z.
 Proof. exact export_file_exact_when_aligned. Qed.
 Print Assumptions C38_export_exact_when_aligned_partial.
 
-(** Read level: a flushed tombstone-free engine, its files' block layout [bs]; if the export
-    succeeds, the imported export reads like the source everywhere inside the range. *)
-Theorem C38_export_import_in_range_partial : forall lo hi s bs ms,
+(** Read level: a flushed tombstone-free engine, its files' block layout [bs]; the imported
+    export reads like the source everywhere inside the range (Export is total now). *)
+Theorem C38_export_import_in_range_partial : forall lo hi s bs,
   hot s = [] -> snap s = [] ->
   Forall2 same_points (files s) bs -> Forall (fun f => ftomb f = []) (files s) ->
-  export lo hi 0 (map (pair false) bs) = (0%N, ms) ->
-  forall k t, (lo <= t <= hi)%Z -> abs (import_state (map snd ms)) k t = abs s k t.
+  forall k t, (lo <= t <= hi)%Z ->
+    abs (import_state (map snd (export lo hi 0 (plain bs)))) k t = abs s k t.
 Proof. exact export_import_state. Qed.
 Print Assumptions C38_export_import_in_range_partial.
 
 Theorem C38_export_exact_refuted :
-  exists fs lo hi ms, export lo hi 0 fs = (0%N, ms) /\
-    exists k t v, abs (import_state (map snd ms)) k t = Some v /\ ~ (lo <= t <= hi)%Z.
+  exists fs lo hi k t v,
+    abs (import_state (map snd (export lo hi 0 (plain fs)))) k t = Some v /\ ~ (lo <= t <= hi)%Z.
 Proof.
-  exists [(false, c38_export_witness)], 1%Z, 1%Z. eexists. destruct export_not_exact_witness as [E A].
-  split; [exact E|]. exists 0%N, 0%Z, 10%Z. split; [exact A|lia].
+  exists [c38_export_witness], 1%Z, 1%Z, 0%N, 0%Z, 10%Z. destruct export_not_exact_witness as [E A].
+  rewrite E. split; [exact A|lia].
 Qed.
 Print Assumptions C38_export_exact_refuted.
 
-(** Export fails (ErrNoValues) exactly when a file's range meets the request but no block does. *)
-Theorem C38_export_no_values_iff : forall lo hi f,
-  export_file lo hi f = None <->
-  overlaps3 (fmin f) (fmax f) lo hi = true /\ (forall b, In b f -> block_keep lo hi b = false).
-Proof. exact export_file_error_iff. Qed.
-Print Assumptions C38_export_no_values_iff.
-
-Theorem C38_export_no_values_refuted :
-  exists fs lo hi, existsb fst fs = false /\ fst (export lo hi 0 fs) <> 0%N.
-Proof.
-  exists [(false, [(0%N, [(0, 1); (1, 2)]%Z); (2%N, [(10, 3)]%Z)])], 4%Z, 5%Z.
-  split; [reflexivity|]. rewrite export_no_values_witness. discriminate.
-Qed.
-Print Assumptions C38_export_no_values_refuted.
-
-(** A shard with a tombstoned TSM file cannot be exported, whatever the range. *)
-Theorem C38_export_tombstoned_shard_fails : forall lo hi fs i,
-  existsb fst fs = true -> fst (export lo hi i fs) <> 0%N.
-Proof. exact export_tombstoned_fails. Qed.
-Print Assumptions C38_export_tombstoned_shard_fails.
+(** Repaired shapes: a file overlapping the range with no block in it exports nothing; a
+    tombstoned file is exported through its reader's view. *)
+Example C38_export_repaired_shapes :
+  export 4 5 0 (plain [[(0%N, [(0, 1); (1, 2)]%Z); (2%N, [(10, 3)]%Z)]]) = [] /\
+  export 0 5 0 [([(0%N, [(0, 1); (1, 2)]%Z); (2%N, [(3, 3); (10, 4)]%Z)], [(2%N, [(3, 3); (10, 4)]%Z)])]
+  = [(0%nat, [(2%N, [(3, 3); (10, 4)]%Z)])].
+Proof. split; [exact export_gap_witness|exact export_tombstoned_witness]. Qed.
 
 (** Non-vacuity: a two-file engine with data in the cache meets the hypotheses of the
     restore theorem, and an aligned export of a two-block file is exact. *)
@@ -144,8 +126,9 @@ Example C38_nonvacuous :
             Write [(0%N, 5%Z, 11%Z)]; SnapBegin; SnapCommit; Write [(2%N, 2%Z, 12%Z)]] in
   let s := run h init in
   no_delete h /\ quiescent s /\ length (files (snapshot_now s)) = 3%nat /\
-  abs (restore_state (backup_sel 0 (combine [2; 4; 1000]%Z (files (snapshot_now s))))) 0%N 5%Z = Some 11%Z /\
-  export 3 5 0 [(false, c38_export_witness)] = (0%N, [(0%nat, [(0%N, [(3, 13); (4, 14); (5, 15)]%Z)])]).
+  abs (restore_state (backup_sel 0 (with_mtimes [(2, None); (4, None); (1000, None)]%Z
+                                      (files (snapshot_now s))))) 0%N 5%Z = Some 11%Z /\
+  export 3 5 0 (plain [c38_export_witness]) = [(0%nat, [(0%N, [(3, 13); (4, 14); (5, 15)]%Z)])].
 Proof.
   cbv zeta. split; [repeat constructor|]. vm_compute. repeat split; reflexivity.
 Qed.
